@@ -90,6 +90,11 @@ def _run_chunk(chunk):
             for extra, kind in invocations:
                 shutil.rmtree(logdir, ignore_errors=True)
                 os.makedirs(logdir)
+                for stale in ('testlog.json', 'testlog.txt'):         # an invocation that selects no test writes no log: never read an old one
+                    try:
+                        os.unlink(os.path.join(build, 'meson-logs', stale))
+                    except FileNotFoundError:
+                        pass
                 pr = subprocess.run([sys.executable, os.path.join(repo, 'meson.py'), 'test', '--no-rebuild', '-C', build, '-t', '0.3', *extra], capture_output=True, text=True, env=env, timeout=300)
                 nt += 1
                 case = {'generator_seed': seed, 'arguments': extra, 'tests': [[t['name'], t['code'], t['parallel'], t['should_fail'], t['dur'], t['suite']] for t in tests]}
